@@ -82,3 +82,15 @@ func StaticStructInit(fn, typeSubstr string) []string      { return nil }
 // Engine: the constant list passed to SetOrderInitGenesis in app.NewApp; natively: the real
 // application's ModuleManager.OrderInitGenesis.
 func InitGenesisOrder() []string { return append([]string{}, realApp().ModuleManager.OrderInitGenesis...) }
+
+// StreamFeeCollector: the module-account name the stream keeper pays validator fees to. Engine:
+// the constant passed as feeCollectorName to streamkeeper.NewKeeper in app.NewApp; natively: the
+// (unexported) field of the real application's keeper.
+func StreamFeeCollector() string {
+	a := realApp()
+	f := reflect.ValueOf(&a.StreamKeeper).Elem().FieldByName("feeCollectorName")
+	return f.String()
+}
+
+// BeginBlockOrder: the order in which the module manager runs the modules' BeginBlock.
+func BeginBlockOrder() []string { return append([]string{}, realApp().ModuleManager.OrderBeginBlockers...) }
